@@ -76,7 +76,9 @@ impl Sink {
     pub fn done(&mut self, w: World) {
         self.worlds += 1;
         self.ops += w.history.len() as u64;
-        self.digest.update(w.digest_hex().as_bytes());
+        if !w.nondeterministic {
+            self.digest.update(w.digest_hex().as_bytes());
+        }
         for (k, v) in &w.stats {
             *self.stats.entry(k.clone()).or_insert(0) += v;
         }
